@@ -52,7 +52,7 @@ CHECKS['C04'] = dict(
 
 CHECKS['C06'] = dict(
     text='Server-side decoders on an arbitrary input of arbitrary length, with the ideal-AEAD ghost log holding only what parties without the required credential can have sealed (another pre-shared key differing in at least one bit; the server key alone where a registered user key is also required; an unregistered key) next to one genuine request of registered user A: a connect/relay item reaches the relay only if every opened ciphertext was sealed under the configured credential; with a two-user table (symbolic keys and identity hashes) traffic authenticated under A is attributed to A (session user = A, so replies use A\'s key) and a lookup miss never falls back to the server key. Trojan: an item is yielded - and the Header state left - only if the 56 presented characters decode (u8::from_str_radix semantics) to the stored SHA-224 digest, for every input.',
-    note='Trusted: rustc MIR dump, vf.engine, vf.ideal, AES-ECB/CRC/FNV as arbitrary functions, z3. VMess user-id matching (auth id + sealed header under a registered key) is covered by the C04 server job on valid input and C07 on arbitrary input, not yet by an adversarial log here; Shadowsocks UDP identity headers and the process-wide UDP cipher cache are outside. Whether the server dials is decided by the first item (async relay_to is outside).',
+    note='Trusted: rustc MIR dump, vf.engine, vf.ideal, AES-ECB/CRC/FNV as arbitrary functions, z3. VMess: the server codec from its initial state on an arbitrary input with a log holding a complete request of an UNREGISTERED user id (differs from the registered command key in at least one bit) never yields an item (auth-id block cipher, CRC32 and FNV are arbitrary functions; the sealed header is unforgeable); VMess attribution between two registered ids is not checked; Shadowsocks UDP identity headers and the process-wide UDP cipher cache are outside. Whether the server dials is decided by the first item (async relay_to is outside).',
     technique='MIR symbolic execution to z3 (ideal-AEAD ghost log of non-credentialed ciphertexts; accept implies credential)', design='DESIGN.md section 2, C06')
 
 CHECKS['C01'] = dict(
